@@ -153,7 +153,8 @@ class BuiltinConnector(BaseConnector):
         Note:
             There are faster algorithms, but this is fine for now.
         """
-        return pfaffian(matrix)
+        # NOTE: The native implementation works in place, hence the copy.
+        return pfaffian(self.fallback_np.array(matrix))
 
     def real_logm(self, matrix):
         """Calculates the real logarithm of a matrix.
